@@ -92,6 +92,37 @@ class Ctx:
         if text not in self.assumptions:
             self.assumptions.append(text)
 
+    def import_rule(self, sibling_prop: str, rule_id: str, as_rule: str, why: str, constructs=None):
+        """Run the rule module of another property on the same program and take over what its rule `rule_id` established - obligations,
+        violations (keys re-labelled `as_rule:...`), floors and the rule text - under this check's rule id `as_rule`. Used where one piece of code
+        carries two properties (the split writer is part of rdump's contract AND of the writers'), so that a change there is named by both."""
+        import importlib
+
+        mod = importlib.import_module(f"sa.rules.{sibling_prop.lower()}")
+        sub = Ctx(self.prog, sibling_prop.upper(), self.tier, self.seed)
+        mod.run(sub)
+        self.rule(as_rule, f"[= {rule_id} of {sibling_prop.upper()}] {why} - " + sub.rule_texts.get(rule_id, ""))
+        n = 0
+        for ob in sub.obligations:
+            if ob["rule"] != rule_id or (constructs is not None and not any(ob["construct"].startswith(c) for c in constructs)):
+                continue
+            rec = dict(ob)
+            rec["rule"] = as_rule
+            if not rec["ok"]:
+                k = rec.get("key") or f"{rule_id}:{rec['construct']}"
+                rec["key"] = as_rule + k[len(rule_id):] if k.startswith(rule_id) else f"{as_rule}:{k}"
+                self.violations.append(rec)
+            self.obligations.append(rec)
+            n += 1
+        for fl in sub.floors:
+            if fl["rule"] == rule_id:
+                self.floors.append(dict(fl, rule=as_rule))
+        for u in sub.unmet_floors:
+            if u.startswith(rule_id + ":"):
+                self.unmet_floors.append(as_rule + u[len(rule_id):])
+        self.files_used |= sub.files_used
+        self.floor(as_rule, f"obligations taken over from {rule_id}", n, 1)
+
     def anchor_func(self, qualname: str):
         n = self.prog.func(qualname)
         self.loc(n)
